@@ -10,7 +10,7 @@ CHECKS = {
          "runtime monitor: cross-layer set equality at every step + quiescence (bounded progress) check"),
  "C03": (SIM, "4, 5/C03", "order check of execution starts against dependency finishes over recorded histories of random DAG workloads with failures/cancels",
          "runtime monitor: happens-before check of starts vs. dependency finishes; propagation check at quiescence"),
- "C04": ("E3 allocator lab", "5/C04", "shadow ledger over every grant/release of the real ResourceAllocator on random descriptors and operation sequences with allocate-then-release probes on every reached free state; plus the ledger of concurrently open executions per simulated worker",
+ "C04": ("E3 allocator lab", "5/C04", "shadow ledger over every grant/release of the real ResourceAllocator on random descriptors and operation sequences with allocate-then-release probes on every reached free state (12 shards); plus, in the cluster simulation (4 shards), the ledger of the allocations of all executions that are open at the same time on one simulated worker (rule A6: what the real WorkerState handed to the launcher, incl. the hand-over of an allocation to a backlog task)",
          "runtime monitor: shadow ledger (conservation / exclusivity) over allocator operation sequences"),
  "C05": (SIM, "4, 5/C05", "oracle's own arithmetic over core snapshots at every step boundary (placed tasks vs. worker resources, lifetime at the placing round, multi-node sets) + independent re-statement of the cross-structure invariants",
          "runtime monitor: structural invariant + resource-sum oracle on core snapshots at quiescent points"),
